@@ -26,3 +26,4 @@ def exhaustive(tier):
 def run_cell(cfg, cx):
     from xhair import runner
     runner.run_c19(cx, cx.tier)
+    runner.train_protocol_check(cx)
